@@ -120,12 +120,24 @@ func vf07Key(rt *rapid.T) []byte {
 func TestVerifC07Encode(t *testing.T) {
 	vf07Setup(t)
 	c := ev.For("C07")
-	c.Rule("encode: generated 32-byte private keys (uniform with each value of the low three bits, all-zero, all-ff, single bit, already clamped) x tweak 0..255; oracle: the ok / no-representative answer equals the reference predicate '-2u(u+A) is a non-zero square' for the dirty public key u = u([clamp k]B + L) computed in math/big (L = the low-order point learned per value of the low three key bits); on success the public key equals that u, the representative decodes to it both in the implementation and in the reference map, representative top bits == tweak bits 6-7 and the low 254 bits do not depend on them, X25519(s, pub) == X25519(s, clean public key) for a random s in the reference ladder and in x/crypto, pub - [clamp k]B is a low-order point determined by the low three key bits; all 8 cosets must occur; non-trivial = successful encoding; fingerprint = key, tweak")
+	c.Rule("encode: generated 32-byte private keys (uniform with each value of the low three bits, all-zero, all-ff, single bit, already clamped) x tweak 0..255, the output arrays handed to the calls holding zeros, ff, random bytes or earlier results; oracle: the ok / no-representative answer equals the reference predicate '-2u(u+A) is a non-zero square' for the dirty public key u = u([clamp k]B + L) computed in math/big (L = the low-order point learned per value of the low three key bits); on success the public key equals that u, the representative decodes to it both in the implementation and in the reference map, representative top bits == tweak bits 6-7 and the low 254 bits do not depend on them, X25519(s, pub) == X25519(s, clean public key) for a random s in the reference ladder and in x/crypto, pub - [clamp k]B is a low-order point determined by the low three key bits; all 8 cosets must occur; non-trivial = successful encoding; fingerprint = key, tweak")
 	rapid.Check(t, func(rt *rapid.T) {
 		k := vf07Key(rt)
 		tweak := byte(rapid.IntRange(0, 255).Draw(rt, "tweak"))
 		var pub, repr, priv [32]byte
 		copy(priv[:], k)
+		// the caller's output arrays are not necessarily zero (re-used between calls, or never cleared):
+		// the results are a function of key and tweak alone
+		dirtyOut := rapid.SampledFrom([]string{"zero", "ff", "random", "random"}).Draw(rt, "outputArrays")
+		switch dirtyOut {
+		case "ff":
+			for i := range pub {
+				pub[i], repr[i] = 0xff, 0xff
+			}
+		case "random":
+			copy(pub[:], detrand.Bytes(rapid.Uint64().Draw(rt, "dirtyPub"), 32))
+			copy(repr[:], detrand.Bytes(rapid.Uint64().Draw(rt, "dirtyRepr"), 32))
+		}
 		ok := ScalarBaseMult(&pub, &repr, &priv, tweak)
 		if !bytes.Equal(priv[:], k) {
 			rt.Fatalf("VIOL[c07-private-key-modified]: ScalarBaseMult changed its private key argument")
@@ -137,6 +149,9 @@ func TestVerifC07Encode(t *testing.T) {
 			rt.Fatalf("VIOL[c07-representable-answer]: ScalarBaseMult(%x, tweak %d) = %v, but the dirty public key %x is representable = %v", k, tweak, ok, refx.ToLE(u), want)
 		}
 		cls := []string{fmt.Sprintf("low-bits-%d", k[0]&7)}
+		if dirtyOut != "zero" {
+			cls = append(cls, "output-arrays-not-zero")
+		}
 		if !ok {
 			c.Case(ev.Hash(k, tweak), false, append(cls, "no-representative"), nil)
 			return
@@ -156,7 +171,7 @@ func TestVerifC07Encode(t *testing.T) {
 			}
 			rt.Fatalf("VIOL[c07-coset-not-function-of-low-bits]: key %x (low bits %d) landed in coset %d, other keys with these low bits in coset %d", k, k[0]&7, where, vf07Table[int(k[0]&7)])
 		}
-		var dec [32]byte
+		dec := repr // (not zero either)
 		RepresentativeToPublicKey(&dec, &repr)
 		if dec != pub {
 			rt.Fatalf("VIOL[c07-roundtrip]: representative %x of public key %x decodes to %x (key %x, tweak %d)", repr, pub, dec, k, tweak)
@@ -169,7 +184,7 @@ func TestVerifC07Encode(t *testing.T) {
 			rt.Fatalf("VIOL[c07-top-bits]: representative top bits %02x, tweak top bits %02x", repr[31]&0xc0, tweak&0xc0)
 		}
 		for _, x := range []byte{0x40, 0x80, 0xc0} {
-			var pub2, repr2 [32]byte
+			pub2, repr2 := repr, pub // re-used arrays holding earlier results
 			if !ScalarBaseMult(&pub2, &repr2, &priv, tweak^x) {
 				rt.Fatalf("VIOL[c07-representable-answer]: answer depends on tweak bits 6-7")
 			}
